@@ -465,7 +465,6 @@ func c10Mutate(v *c10Valid, c c10Cell, rep int) ([]byte, bool) {
 	return nil, false
 }
 
-
 // ---- value-boundary operators ------------------------------------------------
 
 // c10Leaf is one scalar, fixed-size or length-prefixed field of a value.
